@@ -3,6 +3,9 @@ import sys, os, argparse, importlib, traceback
 sys.path.insert(0, os.path.dirname(os.path.abspath(__file__)))
 
 REGISTRY = {
+    'C01': ('checks.cv', 'check_c01'),
+    'C02': ('checks.cv', 'check_c02'),
+    'C04': ('checks.cv', 'check_c04'),
     'C06': ('checks.callrun', 'check_c06'),
     'C07': ('checks.callrun', 'check_c07'),
     'C10': ('checks.c10', 'check_c10'),
